@@ -2380,6 +2380,8 @@ class ImportanceNestedSampler(BaseNestedSampler):
             "checkpoint_callback",
             "training_samples",
             "iid_samples",
+            "_critical_depth",
+            "_deferred_exit",
         }
         state = {k: d[k] for k in d.keys() - exclude}
         if d.get("model") is not None:
